@@ -42,7 +42,7 @@ type Ledger struct {
 	// validator reward records (claims on the rewards pool; never summed as value)
 	RwMatured   map[string]*big.Int // rwcum_balance_
 	RwWithdrawn map[string]*big.Int // rwcum_withdrawn_
-	BidEscrow []bidLocked
+	BidEscrow   []bidLocked
 	// other families: raw values by family name
 	Raw map[string]map[string][]byte
 	// problems met while decoding (unknown prefix with amount-like content, undecodable values)
